@@ -86,6 +86,25 @@ Shapes3x3   == {<<3,3>>}
 ShapesWide  == {<<1,4>>, <<4,1>>, <<2,4>>, <<4,2>>}
 Shapes3x4   == {<<3,4>>, <<4,3>>}
 Shapes4x4   == {<<4,4>>}
+Shapes2x3   == {<<2,3>>, <<3,2>>}
+
+\* ---- slot-set view (design specs keep the connection structure as a SET of slots <<d,i,j>>) ----
+ConnOfSlots(R, C, S) == [d \in 1..2 |-> [i \in 1..R |-> [j \in 1..C |-> IF <<d-1, i-1, j-1>> \in S THEN 1 ELSE 0]]]
+LinkedS(S, a, b) == SlotOf(a, b) \in S
+NbS(R, C, S, a) == {b \in Nb4(R, C, a) : SlotOf(a, b) \in S}
+RECURSIVE ReachFromS(_, _, _, _, _)
+ReachFromS(R, C, S, frontier, seen) ==
+  IF frontier = {} THEN seen
+  ELSE LET nxt == (UNION {NbS(R, C, S, a) : a \in frontier}) \ seen
+       IN ReachFromS(R, C, S, nxt, seen \cup nxt)
+ReachS(R, C, S, a) == ReachFromS(R, C, S, {a}, {a})
+InGridS(R, C, S) == \A s \in S : s \in Slots(R, C) /\ Interior(R, C, s)
+IsTreeOnS(R, C, S, V, a) == InGridS(R, C, S) /\ Cardinality(S) = Cardinality(V) - 1 /\ ReachS(R, C, S, a) = V
+IsSpanningTreeS(R, C, S) == IsTreeOnS(R, C, S, CellsOf(R, C), <<0, 0>>)
+DegS(R, C, S, a) == Cardinality(NbS(R, C, S, a))
+\* where _random_start_coord can put the start: randint(0, max(shape-1, 1)) per axis
+StartRange(R, C) == (0..MaxI(R - 2, 0)) \X (0..MaxI(C - 2, 0))
+RemoveIdx(q, i) == SubSeq(q, 1, i - 1) \o SubSeq(q, i + 1, Len(q))
 
 SeqToSet(q) == {q[k] : k \in 1..Len(q)}
 CellSet(q) == {Cell(q[k]) : k \in 1..Len(q)}
